@@ -22,3 +22,4 @@ def run(ck):
     factors.r10f_simd_fetchers(ck, P, 'C02-R14')
     sampling.r11_rounding_epsilon(ck, P)     # C08-R11: the C fast-path fetcher and the general fetcher start their kernels at the same pixel
     tables.r15_pixbuf_substitution(ck, P)
+    codec.r12_simd_helpers(ck, P, 'C02-R16')
